@@ -496,19 +496,46 @@ func (m *model) streamFailed(i int, afterMsg bool, obs observed) {
 	if len(ids) > 1 {
 		m.st.SharedFailures++
 	}
+	// cand: for every server, the authorities that may (definitely or in a
+	// gray zone) take it into use as their fallback target in this op. A
+	// channel creation can only be attributed to an authority if it is the
+	// only candidate for that server.
+	cand := map[int][]int{}
 	for _, id := range ids {
-		m.authStreamFailed(m.auths[id], i, obs)
+		a := m.auths[id]
+		yes, gray := a.uncached()
+		if p := a.pos[i]; p == a.active && (yes || gray) {
+			if q := a.nextUnheld(p); q >= 0 {
+				cand[a.srvs[q]] = append(cand[a.srvs[q]], id)
+			}
+		}
 	}
+	for _, id := range ids {
+		m.authStreamFailed(m.auths[id], i, obs, cand)
+	}
+}
+
+// nextUnheld returns the first position after p whose channel the authority
+// does not hold (-1: none).
+func (a *mAuth) nextUnheld(p int) int {
+	for q := p + 1; q < len(a.srvs); q++ {
+		if !a.held[q] {
+			return q
+		}
+	}
+	return -1
 }
 
 // observedFallback: did authority a take the channel of its q-th server into
 // use in this op? ok=false: cannot be told from the client's reactions.
-func (m *model) observedFallback(a *mAuth, q int, obs observed) (did, ok bool) {
+func (m *model) observedFallback(a *mAuth, q int, obs observed, cand map[int][]int) (did, ok bool) {
 	j := a.srvs[q]
 	if !obs.had[j] {
-		if m.srv[j].conn != cNone {
-			// created in this very op on behalf of another authority
-			return false, false
+		for _, id := range cand[j] {
+			if id != a.id {
+				// possibly created on behalf of another authority in this very op
+				return false, false
+			}
 		}
 		return obs.built[j], true
 	}
@@ -523,16 +550,10 @@ func (m *model) observedFallback(a *mAuth, q int, obs observed) (did, ok bool) {
 	return false, false
 }
 
-func (m *model) authStreamFailed(a *mAuth, i int, obs observed) {
+func (m *model) authStreamFailed(a *mAuth, i int, obs observed, cand map[int][]int) {
 	p := a.pos[i]
 	yes, gray := a.uncached()
-	next := -1
-	for q := p + 1; q < len(a.srvs); q++ {
-		if !a.held[q] {
-			next = q
-			break
-		}
-	}
+	next := a.nextUnheld(p)
 	fallback := false
 	switch {
 	case next < 0:
@@ -541,12 +562,12 @@ func (m *model) authStreamFailed(a *mAuth, i int, obs observed) {
 	case yes && p != a.active:
 		// Statement: switch "only when the active server's stream failed".
 		// (The implementation used to fall back from whichever server failed.)
-		if did, ok := m.observedFallback(a, next, obs); ok && did {
+		if did, ok := m.observedFallback(a, next, obs, cand); ok && did {
 			m.known[SigFallbackNonActive] = fmt.Sprintf("stream to server %d failed while server %d was active for authority %d; the client took server %d into use", i, a.srvs[a.active], a.id, a.srvs[next])
 			fallback = true
 		}
 	case gray && p == a.active:
-		did, ok := m.observedFallback(a, next, obs)
+		did, ok := m.observedFallback(a, next, obs, cand)
 		if !ok {
 			m.unobservable = "gray fallback decision (only rejected resources uncached) onto a channel without observable reaction"
 		}
